@@ -996,6 +996,9 @@ func main() {
 		if *part == "all" || *part == "desc" {
 			corrDesc(hx.NewRng(*seed*8+7), *n, thorough)
 		}
+		if *part == "all" || *part == "range" {
+			corrRange(hx.NewRng(*seed*8+9), *n, thorough)
+		}
 	case "search":
 		hygTablesStart()
 		if *part == "all" || *part == "asc" {
@@ -1027,6 +1030,11 @@ func main() {
 			searchDesc(hx.NewRng(*seed*8+7), *n, thorough)
 			hygTablesEnd("desc")
 			fmt.Fprintf(out, "PART\tdesc\t%d\n", evals)
+		}
+		if *part == "all" || *part == "range" {
+			searchRange(hx.NewRng(*seed*8+9), *n, thorough)
+			hygTablesEnd("range")
+			fmt.Fprintf(out, "PART\trange\t%d\n", evals)
 		}
 		fmt.Fprintf(out, "EVALS\t%d\n", evals)
 		fmt.Fprintf(out, "DISTINCT\t%d\n", len(distinctSet)+bulkDistinct)
